@@ -1,7 +1,7 @@
 (* C07 — proofs, part 2: the closed forms ForLoopPT builds (Sum with ceiling/Max, Piecewise for the empty range, the
    substituted start / final index) evaluate to the sum over / the first / the last element of the Python range. *)
 From Coq Require Import ZArith QArith Qround List Bool Lia ZifyBool Lra Lqa.
-Require Import QV.C07.Model QV.C07.Spec QV.C07.ProofsRange.
+Require Import QV.C07.Model QV.C07.Spec QV.C07.Wf QV.C07.ProofsRange.
 Import ListNotations.
 Open Scope Q_scope.
 
